@@ -234,6 +234,8 @@ func (hs *serverHandshakeState) handshake() error {
 		if _, err = c.flush(); err != nil {
 			return err
 		}
+		// 启动重传定时器：客户端的 CCS + Finished 未到达时重发本 flight
+		c.retransmitTimer.reset()
 		if err = hs.readFinished(nil); err != nil {
 			return err
 		}
